@@ -423,6 +423,13 @@ func runXS(r *hx.Run, c hx.Case) {
 	mode := c.Args[7]
 	at, _ := strconv.Atoi(c.Args[8])
 	n, _ := strconv.Atoi(c.Args[9])
+	// how the account's (salt, iteration count) change from one exchange to the next (a server may re-salt an account or
+	// raise its iteration count at any time): same | iter | salt | both
+	vary := "same"
+	if len(c.Args) > 10 {
+		vary = c.Args[10]
+	}
+	salt0, iter0 := sp.salt, sp.iter
 	scArg := hx.Hex([]byte(strings.Join(c.Args, " ")))
 	var cst, sst *tls.ConnectionState
 	if isPlus(sp.mech) {
@@ -452,6 +459,13 @@ func runXS(r *hx.Run, c hx.Case) {
 		m := mode
 		if i == n-1 {
 			m = "ok"
+		}
+		sp.salt, sp.iter = salt0, iter0
+		if i > 0 && (vary == "iter" || vary == "both") {
+			sp.iter = iter0 + 1 + i
+		}
+		if i > 0 && (vary == "salt" || vary == "both") {
+			sp.salt = append(append([]byte{}, salt0...), byte(i))
 		}
 		class, lines, replies, accepted, err := runDisturbed(sp, a, sst, m, at)
 		if err != nil {
@@ -725,8 +739,17 @@ func Run(r *hx.Run, replay []hx.Case) {
 						user, secret = genString(r, 0)+"u", genString(r, 0)+"p"
 					}
 					ver := []int{tls.VersionTLS12, tls.VersionTLS13}[(n+d.at+round)%2]
-					runCase(r, hx.Case{ID: r.NewID(), Kind: "xs", Args: []string{m, hx.Hex([]byte(user)), hx.Hex([]byte(secret)), "~",
-						hx.Hex(randBytes(r, 1+r.Rng.Intn(32))), strconv.Itoa(1 + r.Rng.Intn(4)), strconv.Itoa(ver), d.mode, strconv.Itoa(d.at), strconv.Itoa(n)}})
+					varies := []string{"same"}
+					if isScram(m) {
+						varies = []string{"same", "iter", "salt", "both"}
+					}
+					for _, vy := range varies {
+						if !thorough && vy != "same" && d.mode != "ok" && d.at != 2 {
+							continue // quick: the variations after a completed exchange and after one that got past the server-first
+						}
+						runCase(r, hx.Case{ID: r.NewID(), Kind: "xs", Args: []string{m, hx.Hex([]byte(user)), hx.Hex([]byte(secret)), "~",
+							hx.Hex(randBytes(r, 1+r.Rng.Intn(32))), strconv.Itoa(1 + r.Rng.Intn(4)), strconv.Itoa(ver), d.mode, strconv.Itoa(d.at), strconv.Itoa(n), vy}})
+					}
 				}
 			}
 		}
